@@ -230,6 +230,8 @@ mod skip;
 #[cfg(feature = "take")]
 mod take;
 mod utils;
+#[cfg(callbag_verif)]
+pub mod verif_hooks;
 
 #[doc = include_str!("../README.md")]
 #[cfg(doctest)]
